@@ -67,6 +67,10 @@ CHECKS = {
             "model-based timelines (Hypothesis operation lists, shrinkable) on a real COV server and 1..3 real subscriber stacks under virtual time; oracle = COV bookkeeping model with admissible sets",
             "Generated timelines of subscribe / re-subscribe / cancel (confirmed or not, lifetimes 0..120 s, two process ids per subscriber), present-value writes around the COV increment, same-instant bursts, status-flag writes, time advances across expiry instants and reads of activeCovSubscriptions run against a real device with analog, binary, multi-state and pulse-converter objects; after every step the notifications received by each subscriber are compared with a model: acks, exactly one initial notification, one notification per qualifying change per live subscription with the right kind, current values and remaining time, none after cancellation or expiry, no duplicate subscriptions, and an active list equal to the model's.",
             "Where the statement admits two readings (same-instant bursts; per-object vs per-subscription last reported value for analog objects) the oracle accepts both; covIncrement changes and half-specified SubscribeCOV requests are not generated."),
+    "C03": ("exploration",
+            "schema-driven Hypothesis generation over all registered PDUs and constructed types (all presence patterns / choice alternatives forced), round-trip + re-encode laws, differential against an independent schema interpreter over an audited golden schema, and published Annex F vectors",
+            "For each of the 58 registered service PDUs and ~230 Sequence/Choice classes a recursive strategy built from the class's own element tables generates values (every presence pattern of optionals for classes with few optionals, every choice alternative, lists 0..3, Any filled with typed atomic and constructed values nested up to three opening tags deep); each value must encode, decode to a structurally equal value consuming every tag (PDUs refuse trailing data), re-encode identically and equal the octets of an independent interpreter of golden/schema.json over the reference tag/primitive encoder; live tables and registries must not drift from the golden schema; 17 Annex F examples must encode to the published octets and decode to the published parameters.",
+            "golden/schema.json is a snapshot of the pinned tables with audited corrections (listed inside the file); for un-audited base types it is a regression oracle. Two open known findings (list-typed choice alternatives; NotificationParametersExtended) are excluded by construction when nested."),
 }
 
 NOT_YET = {}
